@@ -25,11 +25,12 @@ PROP = dict(
     rule="(a) exhaustive: all 256 (16) single-cell configurations as 2x2x2 (2x2) lattice solids through the real MarchingCubes/MarchingSquares; (b) random lattice labellings up to 4x4x4 / 6x6 (uniform, sparse, dense, noisy checkerboards = ambiguous configurations) through MarchingCubes, MarchingCubesFilter, MarchingSquares(+Filter), Bitmap.Mesh: real triangle/segment lists must equal the model's lists and the deciders must accept; (c) real outputs of every other generator named by the property (rect, icosahedron, icosphere, polar, cylinder, cone, torus, profile, polytope, rect-set, height-map, search-refined MC/MS) as id soups with exact float coordinates through the deciders + exact signed volume",
     trusted=[
         "regenerated, not modelled: the 256-row and 16-row lookup tables (dumped by executing mcLookupTable()/msLookupTable() of the current tree through the verif hook; the dump is repeated 20x and must be identical)",
-        "NOT mechanised: the lift from the kernel-decided local facts (rows well-formed, interior edges cancel, face patterns determined by the face and reversed in the neighbour, one outward-winding fan path per cell and sign-changing edge, 65 536 pixel windows) to the whole lattice is the counting argument written out in DESIGN.md §3 C01; it is additionally exercised by the whole-lattice correspondence",
+        "MECHANISED lifts (all lattice sizes, all labellings with empty outer layer): ms_closed_on_every_lattice (2-D: one incoming and one outgoing segment at every vertex) and mc_edges_balanced_on_every_lattice (3-D: every directed edge occurs at most once and its reverse exactly as often), both from kernel-decided local facts (msLocalOk / mcLocalOk) about the regenerated tables",
+        "NOT mechanised: in 3-D that no vertex pinches two sheets (the four fan paths round a lattice edge chain into one cycle) and outward orientation of the assembled surface follow from the kernel-decided per-cell theorem mc_fan_is_outward_path by the written argument in DESIGN.md §3 C01 / notes/C01.md; the bitmap lift (a pixel only puts vertices at its own corners and reads its 3x3 neighbourhood) likewise; both are exercised by the whole-lattice correspondence",
         "parametric generators (polar/cylinder/cone/torus/polytope/rect-set/height-map/profile): judged per generated instance by the executable deciders (seam/pole vertex coincidence is float equality of sin/cos results), not proved for all parameters",
         "executable deciders edgeBalanced/fanConnected/inOutOne in lean/M3d/Drv/C01.lean are trusted code (their proved counterparts live in M3d/Model/Surface.lean once C10 lands)",
     ],
     assumptions=["solids are seen only through their value on the sampling lattice, with an empty outer layer (the scanners panic otherwise)"],
     level_text="Kernel-decided theorems over the complete finite configuration space named by the property (256 cube / 16 square configurations, all 3x16 shared-face labellings, all 256x12 vertex fans incl. outward winding, all 65 536 4x4 pixel windows) about tables REGENERATED from /repo on every run, so an edit to baseTriangleTable, the rotation machinery, the first-rotation-wins rule or the inverse-row generation re-runs every theorem; plus exact correspondence of whole-lattice meshes with the real marching cubes/squares/bitmap code and decider verdicts on real outputs of all other mesh generators.",
-    level_note="Local theorems are machine-checked; the local-to-global lift is a written counting argument (not mechanised) backed by whole-lattice correspondence. Parametric generators are covered per instance. Trusted: Lean kernel, table dump hook, harness/driver.",
+    level_note="Local theorems are machine-checked; the local-to-global lift is mechanised for marching squares (in/out degree) and for marching-cubes edge balance; 3-D fan connectivity/orientation and the bitmap lift are written counting arguments backed by whole-lattice correspondence. Parametric generators are covered per instance. Trusted: Lean kernel, table dump hook, harness/driver.",
 )
